@@ -108,6 +108,13 @@ def gen_chain(r, coin, n, max_txs=4, max_io=3, segwit=True, odd_widths=True, aux
             if segwit and r.random() < 0.35:
                 flag = r.choice([1, 1, 1, 3, 0, 2, 8, 9, 0x80, 0xff])
                 stacks = [[rb(r, r.choice([0, 1, 32, 72, 253, 600])) for _ in range(r.randrange(0, 4))] for _ in ins]
+                if r.random() < 0.4:
+                    # the shapes real spends have: key-hash (signature + 33-byte key), script-hash multisig (empty, sigs, script),
+                    # taproot key path (64 / 65-byte signature), with the empty scriptSig that goes with them
+                    shapes = [lambda: [b"\x30" + rb(r, r.choice([70, 71, 72])), b"\x02" + rb(r, 32)], lambda: [b"", b"\x30" + rb(r, 71), b"\x30" + rb(r, 70), b"\x52" + rb(r, 100)],
+                              lambda: [rb(r, 64)], lambda: [rb(r, 65)], lambda: [b"\x30" + rb(r, 8), b"\x03" + rb(r, 32)]]
+                    stacks = [r.choice(shapes)() for _ in ins]
+                    tx.ins = [(ph, pi, b"" if r.random() < 0.8 else sc, sq) for (ph, pi, sc, sq) in tx.ins]
                 tx.segwit = (r.choice([1, 1, 1, 3, 5, 9]) if odd_widths else 1, flag, stacks)
             txs.append(tx)
             pool.add(tx.txid(), len(outs))
